@@ -403,10 +403,19 @@ def _bind(gnode, call, is_method):
             raise NotInlineable('keyword mismatch')
         m[k.arg] = k.value
     allpos = a.posonlyargs + a.args
+
+    def shared_default(d):
+        # a mutable default is ONE object for all calls: writing `p = []` at the call site would make it fresh per call
+        return isinstance(d, (ast.List, ast.Dict, ast.Set, ast.ListComp, ast.DictComp, ast.SetComp)) or \
+            (isinstance(d, ast.Call) and isinstance(d.func, ast.Name) and d.func.id in ('list', 'dict', 'set', 'bytearray'))
     for p, d in zip(allpos[len(allpos) - len(a.defaults):], a.defaults):
+        if p.arg not in m and shared_default(d):
+            raise NotInlineable('mutable default argument')
         m.setdefault(p.arg, d)
     for p, d in zip(a.kwonlyargs, a.kw_defaults):
         if d is not None:
+            if p.arg not in m and shared_default(d):
+                raise NotInlineable('mutable default argument')
             m.setdefault(p.arg, d)
     need = set(pos + kwonly)
     if set(m) != need:
